@@ -61,6 +61,34 @@ def label_covering_trees(rng, lang):
     return out
 
 
+def deep_tree(rng, lang, n):
+    """a licensed chain-shaped derivation over n words: modifier^(n-1) head, combined by the grammar's own
+    application rule one word at a time"""
+    mod = en if lang == 'en' else ja
+    if lang == 'en':
+        m, h = Category.parse('S/S'), Category.parse('S[dcl]')
+        t = Tree.make_terminal(T.make_token(rng, lang, awkward=0.0, attrs=0.6), h)
+        for _ in range(n - 1):
+            rs = mod.apply_binary_rules(m, t.cat)
+            if not rs:
+                return None
+            r = rs[0]
+            t = Tree.make_binary(r.cat, Tree.make_terminal(T.make_token(rng, lang, awkward=0.0, attrs=0.6), m), t, r.op_string, r.op_symbol,
+                                 r.head_is_left)
+        return t
+    h = Category.parse('S[mod=nm,form=base,fin=f]')
+    m = Category.parse('S[mod=nm,form=base,fin=f]/S[mod=nm,form=base,fin=f]')
+    t = Tree.make_terminal(T.make_token(rng, lang, awkward=0.0, attrs=0.6), h)
+    for _ in range(n - 1):
+        rs = mod.apply_binary_rules(m, t.cat)
+        if not rs:
+            return None
+        r = rs[0]
+        t = Tree.make_binary(r.cat, Tree.make_terminal(T.make_token(rng, lang, awkward=0.0, attrs=0.6), m), t, r.op_string, r.op_symbol,
+                             r.head_is_left)
+    return t
+
+
 def run(ctx):
     rng = ctx.rng
     import gen_tables
@@ -83,6 +111,13 @@ def run(ctx):
         for _ in range(ctx.budget(40, 400)):
             items.append(('mixed batch', R.make_batch(rng, lang, n_sent=rng.randint(2, 4), licensed_only=True, awkward=0.0,
                                                       with_failed=0.4)))
+        # a long sentence (the default --max-length is 250): a licensed derivation about 200 levels deep, alone
+        # and next to a short sentence
+        deep = deep_tree(rng, lang, 200)
+        if deep is not None:
+            items.append(('a 200-word sentence', [[ScoredTree(deep, -40.0)]]))
+            items.append(('a 200-word sentence in a batch', [[ScoredTree(T.licensed_tree(rng, lang, 1, dict(awkward=0.0, attrs=0.6)), -1.0)],
+                                                              [ScoredTree(T.clone(deep), -40.0)]]))
         for what, batch in items:
             for f in fmts:
                 ctx.evaluations += 1
@@ -90,7 +125,7 @@ def run(ctx):
                 desc = {'lang': lang, 'format': f, 'what': what,
                         'batch': [[T.enc_tree(st.tree)[:600] for st in sent] for sent in batch]}
                 try:
-                    out = R.render(work, f, lang)
+                    out = R.render(work, f, lang, default_stack=True)
                     ctx.nontrivial_add((lang, what, f, len(ctx.nontrivial)))
                 except Exception as e:
                     kind = 'placeholder' if what == 'placeholder' or (what == 'mixed batch') else what
